@@ -90,6 +90,20 @@ def repo_hash():
     return _repo_hash
 
 
+_aux_hash = None
+
+
+def aux_hash():
+    """Hash of the helper crates every witness crate may path-depend on (mockall stub, `once`)."""
+    global _aux_hash
+    if _aux_hash is None:
+        files = []
+        for rel in ("witness/stubs", "witness/helpers"):
+            files += [p for p in walk_files(os.path.join(VERIF, rel)) if "/target/" not in p]
+        _aux_hash = hash_files(files)
+    return _aux_hash
+
+
 def file_hash(p):
     return hash_files([p])
 
